@@ -517,7 +517,8 @@ func (w *willMsg) signal(send bool) {
 // sendWillLocked sends the will message for the client, this function must be guard by srv.Lock.
 func (srv *server) sendWillLocked(msg *gmqtt.Message, clientID string) {
 	req := &WillMsgRequest{
-		Message: msg,
+		Message:          msg,
+		IterationOptions: defaultIterateOptions(msg.Topic),
 	}
 	if srv.hooks.OnWillPublish != nil {
 		srv.hooks.OnWillPublish(context.Background(), clientID, req)
@@ -526,7 +527,8 @@ func (srv *server) sendWillLocked(msg *gmqtt.Message, clientID string) {
 	if req.Message == nil {
 		return
 	}
-	srv.deliverMessage(clientID, msg, defaultIterateOptions(msg.Topic))
+	// publish what the hook left: the (possibly replaced) message under the (possibly narrowed) iteration options.
+	srv.deliverMessage(clientID, req.Message, req.IterationOptions)
 	if srv.hooks.OnWillPublished != nil {
 		srv.hooks.OnWillPublished(context.Background(), clientID, req.Message)
 	}
